@@ -79,10 +79,22 @@ class RealGenerators:
         self.shared[:] = [npp.TrimTrailingWhitespace() if p == "T" else npp.LimitEmptyLines(int(p[1:])) for p in pps]
         return self
 
-    def write(self, text, via_support=False):
-        """One file through the real `_generate_code`."""
+    class Boom(Exception):
+        pass
+
+    def write(self, text, via_support=False, aborted=False):
+        """One file through the real `_generate_code`.  aborted: the template generator raises after it yielded the text (the
+        caller catches the exception and carries on, as a build script or a test harness does)."""
         g = self.sup if via_support else self.gen
-        g._generate_code(self.out, None, (c for c in [text]), True)
+
+        def chunks():
+            yield text
+            if aborted:
+                raise RealGenerators.Boom()
+        try:
+            g._generate_code(self.out, None, chunks(), True)
+        except RealGenerators.Boom:
+            pass
         with open(self.out, encoding="utf-8", newline="") as f:
             return f.read()
 
@@ -125,7 +137,7 @@ def dep_closure(types):
 
 def run(ctx: common.Ctx):
     info = pr.run_translator(ctx, common.REPO)
-    pr.report_source_facts(ctx, info, ["file_pp_calls_pure", "line_pp_reset_complete", "file_pp_source_matches_model", "generator_runs_file_pps_once_in_order", "no_unlisted_shared_containers"])
+    pr.report_source_facts(ctx, info, ["file_pp_calls_pure", "line_pp_reset_complete", "file_pp_source_matches_model", "generator_runs_file_pps_once_in_order", "no_unlisted_shared_containers", "no_undeclared_ambient_inputs", "line_buffer_per_call"])
     drivers = ctx.prove(["C10"], exes=["tpl"])
     drv = drivers.get("tpl")
     rng = ctx.rng
@@ -232,6 +244,46 @@ def run(ctx: common.Ctx):
                                  {"pps": pps, "texts_in_order": ts, "index": i, "written": got[i], "written_alone": alone_cache[k]})
                     break
         ctx.count("files_sequences_with_carry_over", nfail)
+
+    # ---- (b3) renderings aborted by an exception in the middle of a line, the caller carries on -------------------------------------
+    if drv is not None:
+        linebuf = bool(flags.get("linebuf", True))
+        rcases = []
+        small = ["", "\n", "y", "y\n", "ab", "a\nb", "\n\n", "a\r", "a\r\nb", " \n"]
+        for pps in ([], ["T"], ["L1"], ["T", "L1"]):
+            for a in small:
+                for b in small[:6]:
+                    rcases.append((pps, [a, b], "10"))
+        for _ in range(60 if ctx.quick else 1500):
+            n = rng.randint(2, 5)
+            rcases.append((rng.choice([[], ["T"], ["L0"], ["L2"], ["T", "L1"], ["L1", "T"]]),
+                           ["".join(rng.choice(["\n", "y", " ", "\r\n", "z", "\r"]) for _ in range(rng.randint(0, 7))) for _ in range(n)],
+                           "".join(rng.choice("01") for _ in range(n))))
+        lines = [f"renderings {1 if linebuf else 0} {1 if ppreset else 0} {','.join(p) if p else '-'} {','.join('0' for _ in p) if p else '-'} "
+                 + "|".join(enc(t) for t in ts) + " " + ab for p, ts, ab in rcases]
+        G3 = RealGenerators(ctx.scratch / "gens")
+        nab = 0
+        for (pps, ts, ab), a in zip(rcases, drv.ask(lines)):
+            g = G3.start(pps)
+            got = [g.write(t, via_support=(i % 2 == 1), aborted=(ab[i] == "1")) for i, t in enumerate(ts)]
+            m = [dec(x) for x in a.split("|")] if a != "!" else []
+            ctx.traces += 1
+            ctx.case(("renderings", tuple(pps), tuple(ts), ab), nontrivial="1" in ab and any(t and not t.endswith("\n") for t in ts))
+            ctx.count("renderings_sequences")
+            if m != got:
+                ctx.disagree("renderings", {"pps": pps, "texts": ts, "aborted": ab, "model_line_buffer_per_call": linebuf}, m, got)
+            # the property on the implementation: a completed rendering vs the same rendering alone by fresh generators
+            for i, t in enumerate(ts):
+                if ab[i] == "0" and "1" in ab[:i]:
+                    alone = G3.start(pps).write(t)
+                    if got[i] != alone:
+                        nab += 1
+                        if nab <= 20:
+                            ctx.fail({"kind": "aborted-rendering-leaks-into-next-file", "level": "generator"},
+                                     "the text written for a file depends on an earlier rendering that was aborted by an exception",
+                                     {"pps": pps, "texts_in_order": ts, "aborted": ab, "index": i, "written": got[i], "written_alone": alone})
+                        break
+        ctx.count("renderings_with_leak", nab)
 
     # ---- (b2) file post-processors: order of post-processing, command lines, permission bits (harness/filepp.py) ------------------
     filepp.run(ctx, drv)
@@ -547,6 +599,7 @@ def run(ctx: common.Ctx):
     ctx.extra["root_first_lines_checked"] = first_lines_checked
     shared.run_histories(ctx, model, {"kind": "per-type-output-depends-on-company-order-or-history", "lang": "py", "file_kind": "type", "where": "pickled-model-literal",
                                       "level": "history", "templates": "builtin"})
+    shared.run_cross_process(ctx, model, LANGS)
     ctx.sample({"paired_jobs": len(jobs), "inputs": [i[0] for i in inputs]})
 
 
@@ -556,7 +609,8 @@ def replay(ctx, path):
     if "texts_in_order" in rp:
         G = RealGenerators(ctx.scratch)
         g = G.start(rp["pps"])
-        got = [g.write(t) for t in rp["texts_in_order"]]
+        ab = rp.get("aborted") or "0" * len(rp["texts_in_order"])
+        got = [g.write(t, aborted=(ab[i] == "1")) for i, t in enumerate(rp["texts_in_order"])]
         alone = G.start(rp["pps"]).write(rp["texts_in_order"][rp["index"]])
         print(json.dumps({"written_in_sequence": got[rp["index"]], "written_alone": alone}))
         ctx.cleanup()
